@@ -1,6 +1,6 @@
 (* The built-in emptiness layer of the discrete-space grids equals actual cell emptiness after
    every history that does not itself write or detach that layer (Model/PropLayer.v). *)
-From Coq Require Import ZArith List Bool Lia.
+From Coq Require Import ZArith List Bool Lia FinFun.
 From Mesa Require Import Common.ListX Model.PropLayer Proofs.PropLayerProofs.
 Import ListNotations.
 Open Scope Z_scope.
@@ -17,60 +17,57 @@ Definition touches_empty (o : op) : bool :=
   | _ => false
   end.
 
-Definition functional (ag : list (Z * coord)) : Prop :=
-  forall a c1 c2, In (a, c1) ag -> In (a, c2) ag -> c1 = c2.
-
 Lemma agent_cell_in ag a c : agent_cell ag a = Some c -> In (a, c) ag.
 Proof.
   unfold agent_cell. destruct (find (fun p => fst p =? a) ag) as [[a' c']|] eqn:E; [|discriminate].
   intros [= <-]. apply find_some in E. destruct E as [Hin He]. simpl in He.
   apply Z.eqb_eq in He. subst a'. exact Hin.
 Qed.
-Lemma agent_cell_none ag a c : agent_cell ag a = None -> ~ In (a, c) ag.
-Proof.
-  unfold agent_cell. destruct (find (fun p => fst p =? a) ag) eqn:E; [destruct p; discriminate|].
-  intros _ Hin. pose proof (find_none _ _ E _ Hin) as H. simpl in H. rewrite Z.eqb_refl in H. discriminate.
-Qed.
 Lemma occupied_app ag a c c' : occupied (ag ++ [(a, c)]) c' = occupied ag c' || coord_eqb c c'.
 Proof. unfold occupied. rewrite existsb_app. simpl. rewrite orb_false_r. reflexivity. Qed.
+Lemma occupied_true ag c : occupied ag c = true -> exists b, In (b, c) ag.
+Proof.
+  unfold occupied. intros H. apply existsb_exists in H. destruct H as [[b cb] [Hin He]]. simpl in He.
+  apply coord_eqb_eq in He. subst cb. eauto.
+Qed.
+Lemma occupied_in ag b c : In (b, c) ag -> occupied ag c = true.
+Proof. intros H. unfold occupied. apply existsb_exists. exists (b, c). split; [exact H|apply coord_eqb_refl]. Qed.
+Lemma in_remove_pair ag a c b cb :
+  In (b, cb) (remove_pair ag a c) <-> In (b, cb) ag /\ ~ (b = a /\ cb = c).
+Proof.
+  unfold remove_pair. rewrite filter_In. simpl. rewrite negb_true_iff, andb_false_iff, Z.eqb_neq.
+  split; intros [H1 H2]; (split; [exact H1|]).
+  - intros [-> ->]. destruct H2 as [H2|H2]; [congruence|]. rewrite coord_eqb_refl in H2. discriminate.
+  - destruct (Z.eq_dec b a) as [->|Hn]; [|left; exact Hn]. right.
+    destruct (coord_eqb cb c) eqn:E; [|reflexivity]. apply coord_eqb_eq in E. exfalso. apply H2. auto.
+Qed.
 Lemma in_drop ag a b c : In (b, c) (drop_agent ag a) <-> In (b, c) ag /\ b <> a.
 Proof.
   unfold drop_agent. rewrite filter_In. simpl. rewrite negb_true_iff, Z.eqb_neq. tauto.
 Qed.
-Lemma occupied_drop ag a c0 c' :
-  functional ag -> In (a, c0) ag -> c' <> c0 -> occupied (drop_agent ag a) c' = occupied ag c'.
+(* taking agent a out of cell c0 does not change who is in any other cell *)
+Lemma occupied_remove_other ag a c0 c' : c' <> c0 -> occupied (remove_pair ag a c0) c' = occupied ag c'.
 Proof.
-  intros Hf Hin Hne. unfold occupied.
-  destruct (existsb (fun x => coord_eqb (snd x) c') ag) eqn:E.
-  - apply existsb_exists in E. destruct E as [[b cb] [Hb He]]. simpl in He.
-    apply coord_eqb_eq in He. subst cb. apply existsb_exists. exists (b, c'). split; [|apply coord_eqb_refl].
-    apply in_drop. split; [exact Hb|]. intros ->. apply Hne. apply (Hf a c' c0 Hb Hin).
-  - destruct (existsb (fun x => coord_eqb (snd x) c') (drop_agent ag a)) eqn:E2; [|reflexivity].
-    apply existsb_exists in E2. destruct E2 as [[b cb] [Hb He]]. apply in_drop in Hb.
-    assert (existsb (fun x => coord_eqb (snd x) c') ag = true) as X.
-    { apply existsb_exists. exists (b, cb). tauto. }
-    congruence.
+  intros Hne. destruct (occupied ag c') eqn:E.
+  - apply occupied_true in E. destruct E as [b Hb]. apply (occupied_in _ b). apply in_remove_pair.
+    split; [exact Hb|]. intros [_ H]. contradiction.
+  - destruct (occupied (remove_pair ag a c0) c') eqn:E2; [|reflexivity].
+    apply occupied_true in E2. destruct E2 as [b Hb]. apply in_remove_pair in Hb.
+    rewrite (occupied_in ag b c') in E; [discriminate|tauto].
 Qed.
-Lemma functional_drop ag a : functional ag -> functional (drop_agent ag a).
-Proof. intros Hf b c1 c2 H1 H2. apply in_drop in H1. apply in_drop in H2. apply (Hf b); tauto. Qed.
-Lemma functional_add ag a c : functional ag -> (forall c', ~ In (a, c') ag) -> functional (ag ++ [(a, c)]).
+Lemma count_pos_occupied ag c : 0 < count_at ag c -> occupied ag c = true.
 Proof.
-  intros Hf Hn b c1 c2 H1 H2. apply in_app_iff in H1. apply in_app_iff in H2.
-  destruct H1 as [H1|[H1|[]]], H2 as [H2|[H2|[]]].
-  - apply (Hf b); assumption.
-  - inversion H2; subst. exfalso. apply (Hn _ H1).
-  - inversion H1; subst. exfalso. apply (Hn _ H2).
-  - congruence.
+  unfold count_at, occupied. induction ag as [|[b cb] ag IH]; simpl; [lia|].
+  destruct (coord_eqb cb c); simpl; [reflexivity|exact IH].
 Qed.
-Lemma agent_cell_drop ag a : agent_cell (drop_agent ag a) a = None.
+Lemma cell_full_occupied st c : 0 <= s_cap st -> cell_full st c = true -> occupied (s_agents st) c = true.
 Proof.
-  unfold agent_cell. destruct (find (fun p => fst p =? a) (drop_agent ag a)) as [[b c]|] eqn:E; [|reflexivity].
-  apply find_some in E. destruct E as [Hin He]. simpl in He. apply Z.eqb_eq in He. subst b.
-  apply in_drop in Hin. destruct Hin as [_ Hn]. contradiction.
+  intros Hc. unfold cell_full. rewrite andb_true_iff, negb_true_iff, Z.eqb_neq, Z.leb_le. intros [H1 H2].
+  apply count_pos_occupied. lia.
 Qed.
 
 Record einv (st : state) : Prop := {
-  e_fun : functional (s_agents st);
+  e_cap : 0 <= s_cap st;
   e_valid : forall a c, In (a, c) (s_agents st) -> valid_coord (s_dims st) c = true;
   e_grid : assoc EMPTY (s_grid st) = Some 0;
   e_only : forall n, assoc n (s_grid st) = Some 0 -> n = EMPTY;
@@ -87,14 +84,14 @@ Proof.
   rewrite coord_eqb_refl in E. discriminate.
 Qed.
 
-Lemma einv_init dims : einv (init true dims).
+Lemma einv_init multi cap dims : 0 <= cap -> einv (init true multi cap dims).
 Proof.
-  constructor; simpl.
-  - intros a c1 c2 [].
+  intros Hc. constructor; simpl.
+  - exact Hc.
   - intros a c [].
   - reflexivity.
   - intros n. destruct (n =? EMPTY) eqn:E; [|discriminate]. intros _. apply Z.eqb_eq. exact E.
-  - eexists. split; [reflexivity|]. simpl. repeat split. intros c Hc. apply aget_full. exact Hc.
+  - eexists. split; [reflexivity|]. simpl. repeat split. intros c Hc'. apply aget_full. exact Hc'.
 Qed.
 
 (* a write into another object *)
@@ -115,38 +112,54 @@ Proof.
   rewrite (valid_norm _ _ Hc). reflexivity.
 Qed.
 
+(* Cell.add_agent, accepted or refused: the layer stays right (a refusing cell is not empty) *)
 Lemma einv_add st a c :
-  inv st -> s_discrete st = true -> einv st -> agent_cell (s_agents st) a = None ->
-  valid_coord (s_dims st) c = true -> einv (cell_add_agent st a c).
+  inv st -> s_discrete st = true -> einv st -> valid_coord (s_dims st) c = true ->
+  einv (fst (cell_add_agent st a c)).
 Proof.
-  intros I Hd [E1 E2 E3 E4 [L [HL [Hn [Hdims Hv]]]]] Ha Hc. unfold cell_add_agent.
-  rewrite (setattr_empty st c 0 L I Hd E3 HL Hdims Hc). constructor; simpl; auto.
-  - apply functional_add; [exact E1|]. intros c'. apply agent_cell_none. exact Ha.
-  - intros b cb Hin. apply in_app_iff in Hin. destruct Hin as [Hin|[Hin|[]]]; [eapply E2; eauto|].
-    inversion Hin; subst. exact Hc.
-  - eexists. split; [apply (get_obj_set_data st 0 L _ 0 HL)|]. simpl. repeat split; auto.
-    intros c' Hc'. rewrite aget_aset, occupied_app, (Hv c' Hc').
-    destruct (coord_eqb c c'); [rewrite orb_true_r|rewrite orb_false_r]; reflexivity.
+  intros I Hd [E0 E2 E3 E4 [L [HL [Hn [Hdims Hv]]]]] Hc. unfold cell_add_agent.
+  rewrite (setattr_empty st c 0 L I Hd E3 HL Hdims Hc).
+  destruct (cell_full st c) eqn:Ef; simpl.
+  - pose proof (cell_full_occupied st c E0 Ef) as Ho. constructor; simpl; auto.
+    eexists. split; [apply (get_obj_set_data st 0 L _ 0 HL)|]. simpl. repeat split; auto.
+    intros c' Hc'. rewrite aget_aset, (Hv c' Hc').
+    destruct (coord_eqb c c') eqn:E; [|reflexivity]. apply coord_eqb_eq in E. subst c'. rewrite Ho. reflexivity.
+  - constructor; simpl; auto.
+    + intros b cb Hin. apply in_app_iff in Hin. destruct Hin as [Hin|[Hin|[]]]; [eapply E2; eauto|].
+      inversion Hin; subst. exact Hc.
+    + eexists. split; [apply (get_obj_set_data st 0 L _ 0 HL)|]. simpl. repeat split; auto.
+      intros c' Hc'. rewrite aget_aset, occupied_app, (Hv c' Hc').
+      destruct (coord_eqb c c'); [rewrite orb_true_r|rewrite orb_false_r]; reflexivity.
 Qed.
 
 Lemma einv_remove st a c0 :
-  inv st -> s_discrete st = true -> einv st -> agent_cell (s_agents st) a = Some c0 ->
+  inv st -> s_discrete st = true -> einv st -> valid_coord (s_dims st) c0 = true ->
   einv (cell_remove_agent st a c0).
 Proof.
-  intros I Hd [E1 E2 E3 E4 [L [HL [Hn [Hdims Hv]]]]] Ha. unfold cell_remove_agent.
-  pose proof (agent_cell_in _ _ _ Ha) as Hin0.
-  pose proof (E2 _ _ Hin0) as Hc0.
-  set (st1 := set_agents st (s_emask st) (drop_agent (s_agents st) a)).
+  intros I Hd [E0 E2 E3 E4 [L [HL [Hn [Hdims Hv]]]]] Hc0. unfold cell_remove_agent.
+  set (st1 := set_agents st (s_emask st) (remove_pair (s_agents st) a c0)).
   assert (inv st1) as I1 by (apply inv_set_agents; exact I).
   rewrite (setattr_empty st1 c0 _ L I1 Hd E3 HL Hdims Hc0). constructor; simpl; auto.
-  - apply functional_drop. exact E1.
-  - intros b cb Hin. apply in_drop in Hin. eapply E2. apply Hin.
+  - intros b cb Hin. apply in_remove_pair in Hin. eapply E2. apply Hin.
   - eexists. split; [apply (get_obj_set_data st1 0 L _ 0 HL)|]. simpl. repeat split; auto.
     intros c' Hc'. rewrite aget_aset, (Hv c' Hc').
     destruct (coord_eqb c0 c') eqn:E.
     + apply coord_eqb_eq in E. subst c'. reflexivity.
-    + rewrite (occupied_drop _ a c0 c' E1 Hin0); [reflexivity|].
+    + rewrite (occupied_remove_other _ a c0 c'); [reflexivity|].
       intros ->. rewrite coord_eqb_refl in E. discriminate.
+Qed.
+
+Lemma einv_do_move st a c0 c :
+  inv st -> s_discrete st = true -> einv st ->
+  valid_coord (s_dims st) c0 = true -> valid_coord (s_dims st) c = true ->
+  einv (fst (do_move st a c0 c)).
+Proof.
+  intros I Hd E Hc0 Hc. unfold do_move. rewrite Hd.
+  destruct (coord_eqb c c0); [exact E|].
+  pose proof (einv_add st a c I Hd E Hc) as E1. pose proof (inv_cell_add st a c I) as I1.
+  pose proof (frame_cell_add st a c) as [F1 [F2 _]].
+  destruct (cell_add_agent st a c) as [st1 [|]]; simpl in *; [|exact E1].
+  apply einv_remove; auto; congruence.
 Qed.
 
 Lemma resolve_not_empty st r id :
@@ -174,8 +187,9 @@ Proof.
   intros I E Hid HA. destruct (add_layer_inv _ _ _ _ _ I HA) as [Hne Heq].
   destruct r as [[|z p]|k|]; try (assert (st' = st) as -> by (apply Hne; discriminate); exact E).
   destruct (Heq eq_refl) as [Hg [Ho [_ [Hnone [Hd [_ [_ [Hag _]]]]]]]].
-  destruct E as [E1 E2 E3 E4 [L0 [H0 H]]]. constructor.
-  - rewrite Hag. exact E1.
+  destruct (frame_add st id L) as [_ [_ [_ Fc]]]. rewrite HA in Fc. simpl in Fc.
+  destruct E as [E0 E2 E3 E4 [L0 [H0 H]]]. constructor.
+  - rewrite Fc. exact E0.
   - rewrite Hag, Hd. exact E2.
   - rewrite Hg, assoc_app, E3. reflexivity.
   - intros n. rewrite Hg, assoc_app. destruct (assoc n (s_grid st)) eqn:En.
@@ -236,153 +250,153 @@ Proof.
   - exact E.
   - destruct (select_mask st conds exts masks only_empty); exact E.
   - destruct (valid_coord (s_dims st) c) eqn:Hc; [|exact E].
-    destruct (agent_cell (s_agents st) a) eqn:Ha; [exact E|]. simpl.
-    apply einv_add; auto.
+    destruct (agent_cell (s_agents st) a) eqn:Ha; [exact E|].
+    pose proof (einv_add st a c I Hd E Hc) as E1.
+    destruct (cell_add_agent st a c) as [st1 [|]]; exact E1.
   - destruct (valid_coord (s_dims st) c) eqn:Hc; [|exact E].
-    destruct (agent_cell (s_agents st) a) as [c0|] eqn:Ha; [|exact E]. simpl.
-    assert (frame st (cell_remove_agent st a c0)) as [F1 F2].
-    { unfold cell_remove_agent. eapply frame_trans; [|apply frame_cell_setattr]. split; reflexivity. }
-    apply einv_add.
-    + apply inv_cell_remove. exact I.
-    + congruence.
-    + apply einv_remove; auto.
-    + unfold cell_remove_agent.
-      assert (forall s c1 n1 v1, s_agents (cell_setattr s c1 n1 v1) = s_agents s) as X.
-      { intros. unfold cell_setattr. case_all; reflexivity. }
-      rewrite X. simpl. apply agent_cell_drop.
-    + rewrite F2. exact Hc.
+    destruct (agent_cell (s_agents st) a) as [c0|] eqn:Ha; [|exact E].
+    apply einv_do_move; auto. apply (e_valid _ E a). apply agent_cell_in. exact Ha.
+  - destruct (agent_cell (s_agents st) a) as [c0|] eqn:Ha; [|exact E].
+    destruct (Nat.eqb (length dir) (length c0) && dir_ok moore dir && valid_coord (s_dims st) (vadd c0 dir)) eqn:Eg; [|exact E].
+    apply andb_true_iff in Eg. destruct Eg as [_ Hc].
+    apply einv_do_move; auto. apply (e_valid _ E a). apply agent_cell_in. exact Ha.
   - destruct (agent_cell (s_agents st) a) as [c0|] eqn:Ha; [|exact E]. simpl.
-    apply einv_remove; auto.
+    apply einv_remove; auto. apply (e_valid _ E a). apply agent_cell_in. exact Ha.
   - exact E.
 Qed.
 
+Definition clean (ops : list op) : bool := forallb (fun o => negb (touches_empty o)) ops.
+
 Lemma run_einv ops : forall st,
-  inv st -> s_discrete st = true -> einv st -> forallb (fun o => negb (touches_empty o)) ops = true ->
-  einv (run_state st ops).
+  inv st -> s_discrete st = true -> einv st -> clean ops = true -> einv (run_state st ops).
 Proof.
   induction ops as [|o t IH]; intros st I Hd E Hs; simpl; [exact E|].
-  simpl in Hs. apply andb_true_iff in Hs. destruct Hs as [H1 H2]. apply negb_true_iff in H1.
+  unfold clean in Hs. simpl in Hs. apply andb_true_iff in Hs. destruct Hs as [H1 H2]. apply negb_true_iff in H1.
   apply IH; [apply step_inv; exact I| |apply step_einv; assumption|exact H2].
   destruct (step_frame st o) as [F _]. congruence.
 Qed.
 
 (* the emptiness layer, read through the grid or through the cell attribute, says "empty"
    exactly for the cells that hold no agent *)
-Lemma empty_layer_true dims ops c :
-  forallb (fun o => negb (touches_empty o)) ops = true ->
-  valid_coord dims c = true ->
-  let st := run_state (init true dims) ops in
+Lemma empty_layer_true multi cap dims ops c :
+  0 <= cap -> clean ops = true -> valid_coord dims c = true ->
+  let st := run_state (init true multi cap dims) ops in
   layer_read st EMPTY c = Some (b2z (negb (occupied (s_agents st) c))) /\
   cell_read st c EMPTY = Some (b2z (negb (occupied (s_agents st) c))).
 Proof.
-  intros Hs Hc st.
-  assert (einv st) as E by (apply run_einv; [apply inv_init|reflexivity|apply einv_init|exact Hs]).
-  assert (s_dims st = dims) as Hdims by (destruct (run_state_frame (init true dims) ops) as [_ F]; exact F).
-  assert (cell_read st c EMPTY = layer_read st EMPTY c) as OV by apply (one_value dims ops c EMPTY).
+  intros Hcap Hs Hc st.
+  assert (einv st) as E by (apply run_einv; [apply inv_init|reflexivity|apply einv_init; exact Hcap|exact Hs]).
+  assert (s_dims st = dims) as Hdims by (destruct (run_state_frame (init true multi cap dims) ops) as [_ [F _]]; exact F).
+  assert (cell_read st c EMPTY = layer_read st EMPTY c) as OV by apply (one_value multi cap dims ops c EMPTY).
   rewrite OV. cut (layer_read st EMPTY c = Some (b2z (negb (occupied (s_agents st) c)))); [auto|].
   destruct E as [_ _ E3 _ [L [HL [_ [Hd Hv]]]]]. unfold layer_read. rewrite E3, HL. unfold layer_get.
   rewrite Hd, Hdims, (valid_norm _ _ Hc). apply Hv. rewrite Hdims. exact Hc.
 Qed.
 
-(* ---------- legacy SingleGrid: empty_mask = emptiness ---------- *)
+(* ---------- legacy SingleGrid / MultiGrid: empty_mask = emptiness ---------- *)
 Definition injective (ag : list (Z * coord)) : Prop :=
   forall a1 a2 c, In (a1, c) ag -> In (a2, c) ag -> a1 = a2.
 
 Record linv (st : state) : Prop := {
-  l_fun : functional (s_agents st);
-  l_inj : injective (s_agents st);
+  l_inj : s_multi st = false -> injective (s_agents st);
   l_mask : forall c, valid_coord (s_dims st) c = true ->
              aget (s_emask st) c = Some (b2z (negb (occupied (s_agents st) c)))
 }.
 
 Lemma linv_ext st st' :
-  s_emask st' = s_emask st -> s_agents st' = s_agents st -> s_dims st' = s_dims st -> linv st -> linv st'.
-Proof. intros H1 H2 H3 [A B C]. constructor; rewrite ?H1, ?H2, ?H3; assumption. Qed.
+  s_emask st' = s_emask st -> s_agents st' = s_agents st -> s_dims st' = s_dims st ->
+  s_multi st' = s_multi st -> linv st -> linv st'.
+Proof. intros H1 H2 H3 H4 [A C]. constructor; rewrite ?H1, ?H2, ?H3, ?H4; assumption. Qed.
 
-Lemma occupied_true ag c : occupied ag c = true -> exists b, In (b, c) ag.
-Proof.
-  unfold occupied. intros H. apply existsb_exists in H. destruct H as [[b cb] [Hin He]]. simpl in He.
-  apply coord_eqb_eq in He. subst cb. eauto.
-Qed.
-Lemma occupied_in ag b c : In (b, c) ag -> occupied ag c = true.
-Proof. intros H. unfold occupied. apply existsb_exists. exists (b, c). split; [exact H|apply coord_eqb_refl]. Qed.
-
-Lemma occupied_drop_self ag a c0 : injective ag -> In (a, c0) ag -> occupied (drop_agent ag a) c0 = false.
-Proof.
-  intros Hi Hin. destruct (occupied (drop_agent ag a) c0) eqn:E; [|reflexivity].
-  apply occupied_true in E. destruct E as [b Hb]. apply in_drop in Hb. destruct Hb as [Hb Hne].
-  exfalso. apply Hne. apply (Hi b a c0 Hb Hin).
-Qed.
-Lemma injective_drop ag a : injective ag -> injective (drop_agent ag a).
-Proof. intros Hi a1 a2 c H1 H2. apply in_drop in H1. apply in_drop in H2. apply (Hi a1 a2 c); tauto. Qed.
-Lemma injective_add ag a c : injective ag -> occupied ag c = false -> injective (ag ++ [(a, c)]).
+Lemma injective_remove ag a c : injective ag -> injective (remove_pair ag a c).
+Proof. intros Hi a1 a2 c' H1 H2. apply in_remove_pair in H1. apply in_remove_pair in H2. apply (Hi a1 a2 c'); tauto. Qed.
+Lemma injective_add ag a c : injective ag -> (forall b, In (b, c) ag -> b = a) -> injective (ag ++ [(a, c)]).
 Proof.
   intros Hi Ho a1 a2 c' H1 H2. apply in_app_iff in H1. apply in_app_iff in H2.
   destruct H1 as [H1|[H1|[]]], H2 as [H2|[H2|[]]].
   - apply (Hi a1 a2 c'); assumption.
-  - inversion H2; subst. apply occupied_in in H1. congruence.
-  - inversion H1; subst. apply occupied_in in H2. congruence.
+  - inversion H2; subst. apply Ho. exact H1.
+  - inversion H1; subst. symmetry. apply Ho. exact H2.
   - congruence.
 Qed.
 
-Lemma linv_init dims : linv (init false dims).
+Lemma linv_init multi cap dims : linv (init false multi cap dims).
 Proof.
   constructor; simpl.
-  - intros a c1 c2 [].
-  - intros a1 a2 c [].
+  - intros _ a1 a2 c [].
   - intros c Hc. apply aget_full. exact Hc.
 Qed.
 
 Lemma linv_place st a c :
-  linv st -> valid_coord (s_dims st) c = true -> agent_cell (s_agents st) a = None ->
-  occupied (s_agents st) c = false ->
-  linv (set_agents st (aset (s_emask st) c 0) (s_agents st ++ [(a, c)])).
+  linv st -> (s_multi st = false -> forall b, In (b, c) (s_agents st) -> b = a) -> linv (leg_place st a c).
 Proof.
-  intros [A B C] Hc Ha Ho. constructor; simpl.
-  - apply functional_add; [exact A|]. intros c'. apply agent_cell_none. exact Ha.
-  - apply injective_add; assumption.
+  intros [A C] Ho. unfold leg_place. constructor; simpl.
+  - intros Hm. apply injective_add; auto.
   - intros c' Hc'. rewrite aget_aset, occupied_app, (C c' Hc').
     destruct (coord_eqb c c'); [rewrite orb_true_r|rewrite orb_false_r]; reflexivity.
 Qed.
 
-Lemma linv_unplace st a c0 :
-  linv st -> agent_cell (s_agents st) a = Some c0 ->
-  linv (set_agents st (aset (s_emask st) c0 1) (drop_agent (s_agents st) a)).
+Lemma linv_remove st a c0 : linv st -> In (a, c0) (s_agents st) -> linv (leg_remove st a c0).
 Proof.
-  intros [A B C] Ha. pose proof (agent_cell_in _ _ _ Ha) as Hin. constructor; simpl.
-  - apply functional_drop. exact A.
-  - apply injective_drop. exact B.
-  - intros c' Hc'. rewrite aget_aset, (C c' Hc').
-    destruct (coord_eqb c0 c') eqn:E.
-    + apply coord_eqb_eq in E. subst c'. rewrite (occupied_drop_self _ _ _ B Hin). reflexivity.
-    + rewrite (occupied_drop _ a c0 c' A Hin); [reflexivity|].
-      intros ->. rewrite coord_eqb_refl in E. discriminate.
+  intros [A C] Hin. unfold leg_remove. constructor; simpl.
+  - intros Hm. apply injective_remove. auto.
+  - intros c' Hc'.
+    assert (c' <> c0 -> occupied (remove_pair (s_agents st) a c0) c' = occupied (s_agents st) c') as Hoth
+      by apply occupied_remove_other.
+    destruct (s_multi st) eqn:Em; simpl.
+    + destruct (occupied (remove_pair (s_agents st) a c0) c0) eqn:Eo.
+      * rewrite (C c' Hc'). destruct (coord_eqb c0 c') eqn:E.
+        -- apply coord_eqb_eq in E. subst c'. rewrite Eo, (occupied_in _ a c0 Hin). reflexivity.
+        -- rewrite Hoth; [reflexivity|]. intros ->. rewrite coord_eqb_refl in E. discriminate.
+      * rewrite aget_aset, (C c' Hc'). destruct (coord_eqb c0 c') eqn:E.
+        -- apply coord_eqb_eq in E. subst c'. rewrite Eo. reflexivity.
+        -- rewrite Hoth; [reflexivity|]. intros ->. rewrite coord_eqb_refl in E. discriminate.
+    + rewrite aget_aset, (C c' Hc'). destruct (coord_eqb c0 c') eqn:E.
+      * apply coord_eqb_eq in E. subst c'.
+        assert (occupied (remove_pair (s_agents st) a c0) c0 = false) as ->; [|reflexivity].
+        destruct (occupied (remove_pair (s_agents st) a c0) c0) eqn:Eo; [|reflexivity].
+        apply occupied_true in Eo. destruct Eo as [b Hb]. apply in_remove_pair in Hb. destruct Hb as [Hb Hn].
+        exfalso. apply Hn. split; [|reflexivity]. apply (A eq_refl b a c0 Hb Hin).
+      * rewrite Hoth; [reflexivity|]. intros ->. rewrite coord_eqb_refl in E. discriminate.
+Qed.
+
+Lemma linv_do_move st a c0 c :
+  s_discrete st = false -> linv st -> In (a, c0) (s_agents st) -> linv (fst (do_move st a c0 c)).
+Proof.
+  intros Hd E Hin. unfold do_move. rewrite Hd.
+  destruct (negb (s_multi st) && occupied (drop_agent (s_agents st) a) c) eqn:Eg; simpl; [exact E|].
+  apply linv_place; [apply linv_remove; assumption|].
+  unfold leg_remove. simpl. intros Hm b Hb. apply in_remove_pair in Hb. destruct Hb as [Hb _].
+  rewrite Hm in Eg. simpl in Eg.
+  destruct (Z.eq_dec b a) as [->|Hne]; [reflexivity|].
+  rewrite (occupied_in (drop_agent (s_agents st) a) b c) in Eg; [discriminate|]. apply in_drop. auto.
 Qed.
 
 Lemma step_linv st o : s_discrete st = false -> linv st -> linv (fst (step st o)).
 Proof.
   intros Hd E. destruct o; simpl; rewrite ?Hd; simpl; try exact E.
-  - eapply linv_ext; [| | |exact E]; reflexivity.
+  - eapply linv_ext; [| | | |exact E]; reflexivity.
   - destruct (get_obj st h) as [L|]; [|exact E]. unfold add_layer. rewrite Hd.
-    case_all; try exact E; (eapply linv_ext; [| | |exact E]; reflexivity).
-  - unfold remove_layer. rewrite Hd. case_all; try exact E; (eapply linv_ext; [| | |exact E]; reflexivity).
-  - case_all; try exact E; (eapply linv_ext; [| | |exact E]; reflexivity).
-  - case_all; try exact E; (eapply linv_ext; [| | |exact E]; reflexivity).
-  - case_all; try exact E; (eapply linv_ext; [| | |exact E]; reflexivity).
+    case_all; try exact E; (eapply linv_ext; [| | | |exact E]; reflexivity).
+  - unfold remove_layer. rewrite Hd. case_all; try exact E; (eapply linv_ext; [| | | |exact E]; reflexivity).
+  - case_all; try exact E; (eapply linv_ext; [| | | |exact E]; reflexivity).
+  - case_all; try exact E; (eapply linv_ext; [| | | |exact E]; reflexivity).
+  - case_all; try exact E; (eapply linv_ext; [| | | |exact E]; reflexivity).
   - destruct (resolve st r); [|exact E]. destruct (get_obj st z); [|exact E].
-    destruct (modify_cells l fm f hasval cd); simpl; [|exact E]. eapply linv_ext; [| | |exact E]; reflexivity.
-  - case_all; try exact E; (eapply linv_ext; [| | |exact E]; reflexivity).
+    destruct (modify_cells l fm f hasval cd); simpl; [|exact E]. eapply linv_ext; [| | | |exact E]; reflexivity.
+  - case_all; try exact E; (eapply linv_ext; [| | | |exact E]; reflexivity).
   - destruct (select_mask st conds exts masks only_empty); exact E.
   - destruct (valid_coord (s_dims st) c) eqn:Hc; [|exact E].
     destruct (agent_cell (s_agents st) a) eqn:Ha; [exact E|].
-    destruct (occupied (s_agents st) c) eqn:Ho; [exact E|]. simpl. apply linv_place; assumption.
+    destruct (s_multi st) eqn:Em; simpl.
+    + apply linv_place; [exact E|]. intros Hm. congruence.
+    + destruct (occupied (s_agents st) c) eqn:Ho; [exact E|]. simpl. apply linv_place; [exact E|].
+      intros _ b Hb. rewrite (occupied_in _ b c Hb) in Ho. discriminate.
   - destruct (valid_coord (s_dims st) c) eqn:Hc; [|exact E].
     destruct (agent_cell (s_agents st) a) as [c0|] eqn:Ha; [|exact E].
-    destruct (occupied (drop_agent (s_agents st) a) c) eqn:Ho; [exact E|]. simpl.
-    pose proof (linv_unplace st a c0 E Ha) as E1.
-    pose proof (linv_place _ a c E1 Hc (agent_cell_drop _ a) Ho) as E2. exact E2.
+    apply linv_do_move; auto. apply agent_cell_in. exact Ha.
   - destruct (agent_cell (s_agents st) a) as [c0|] eqn:Ha; [|exact E]. simpl.
-    apply linv_unplace; assumption.
+    apply linv_remove; [exact E|]. apply agent_cell_in. exact Ha.
 Qed.
 
 Lemma run_linv ops : forall st, s_discrete st = false -> linv st -> linv (run_state st ops).
@@ -392,11 +406,168 @@ Proof.
   destruct (step_frame st o) as [F _]. congruence.
 Qed.
 
-Lemma empty_mask_true dims ops c :
+Lemma empty_mask_true multi cap dims ops c :
   valid_coord dims c = true ->
-  let st := run_state (init false dims) ops in
+  let st := run_state (init false multi cap dims) ops in
   aget (s_emask st) c = Some (b2z (negb (occupied (s_agents st) c))).
 Proof.
   intros Hc st. assert (linv st) as E by (apply run_linv; [reflexivity|apply linv_init]).
-  apply (l_mask _ E). destruct (run_state_frame (init false dims) ops) as [_ F]. fold st in F. rewrite F. exact Hc.
+  apply (l_mask _ E). destruct (run_state_frame (init false multi cap dims) ops) as [_ [F _]]. fold st in F. rewrite F. exact Hc.
+Qed.
+
+(* ---------- select_cells in terms of ACTUAL emptiness ---------- *)
+Definition passes_actual (st : state) (masks : list (list bool)) (oe : bool) (conds : list (Z * cond))
+           (c : coord) : Prop :=
+  (forall um, In um masks -> mget (user_mask (s_dims st) um) c = true) /\
+  (oe = true -> occupied (s_agents st) c = false) /\
+  (forall n cd, In (n, cd) conds -> exists d, grid_data st n = Some d /\ eval_cond cd (aget0 d c) = true).
+
+Lemma passes_exts_ext st exts : forall P Q,
+  (forall c, In c (all_coords (s_dims st)) -> (P c <-> Q c)) ->
+  forall c, In c (all_coords (s_dims st)) -> (passes_exts st P exts c <-> passes_exts st Q exts c).
+Proof.
+  induction exts as [|[n mode] t IH]; intros P Q H c Hc; simpl; [apply H; exact Hc|].
+  apply IH; [|exact Hc]. intros c1 Hc1. rewrite (H c1 Hc1). split.
+  - intros [HQ [d [Hd Hb]]]. split; [exact HQ|]. exists d. split; [exact Hd|].
+    intros c' Hc' HQ'. apply Hb; [exact Hc'|]. apply (H c' Hc'). exact HQ'.
+  - intros [HQ [d [Hd Hb]]]. split; [exact HQ|]. exists d. split; [exact Hd|].
+    intros c' Hc' HP'. apply Hb; [exact Hc'|]. apply (H c' Hc'). exact HP'.
+Qed.
+
+(* the emptiness view of the grid is right in state st *)
+Definition empty_ok (st : state) : Prop :=
+  forall c, valid_coord (s_dims st) c = true ->
+    exists e, empty_view st = Some e /\ aget e c = Some (b2z (negb (occupied (s_agents st) c))).
+
+Lemma einv_empty_ok st : s_discrete st = true -> einv st -> empty_ok st.
+Proof.
+  intros Hd [_ _ E3 _ [L [HL [_ [_ Hv]]]]] c Hc. unfold empty_view. rewrite Hd, E3, HL. eauto.
+Qed.
+Lemma linv_empty_ok st : s_discrete st = false -> linv st -> empty_ok st.
+Proof. intros Hd [_ C] c Hc. unfold empty_view. rewrite Hd. eauto. Qed.
+
+Lemma select_exact_actual_st st conds exts masks oe m :
+  empty_ok st -> select_mask st conds exts masks oe = inl m ->
+  forall c, In c (mask_list m) <->
+            (In c (all_coords (s_dims st)) /\ passes_exts st (passes_actual st masks oe conds) exts c).
+Proof.
+  intros Hok Hs c. destruct (select_exact st conds exts masks oe m Hs) as [_ H]. rewrite H.
+  split; intros [Hc HP]; (split; [exact Hc|]); revert HP; apply passes_exts_ext; try exact Hc;
+    intros c1 Hc1; unfold passes_base, passes_actual;
+    destruct (Hok c1 (proj2 (valid_in_all_coords _ _) Hc1)) as [e [He Hv]];
+    (assert ((exists e0, empty_view st = Some e0 /\ nz (aget0 e0 c1) = true) <-> occupied (s_agents st) c1 = false) as X;
+     [ split;
+       [ intros [e0 [He0 Hn]]; rewrite He in He0; inversion He0; subst e0; unfold aget0 in Hn; rewrite Hv in Hn;
+         destruct (occupied (s_agents st) c1); [discriminate|reflexivity]
+       | intros Ho; exists e; split; [exact He|]; unfold aget0; rewrite Hv, Ho; reflexivity ]
+     | ]).
+  - split; intros [H1 [H2 H3]]; (split; [exact H1|split; [|exact H3]]); intros Hoe; apply X; apply H2; exact Hoe.
+  - split; intros [H1 [H2 H3]]; (split; [exact H1|split; [|exact H3]]); intros Hoe; apply X; apply H2; exact Hoe.
+Qed.
+
+Lemma reachable_empty_ok d multi cap dims ops :
+  (d = true -> 0 <= cap /\ clean ops = true) -> empty_ok (run_state (init d multi cap dims) ops).
+Proof.
+  intros H. destruct d.
+  - destruct (H eq_refl) as [Hc Hs]. apply einv_empty_ok.
+    + destruct (run_state_frame (init true multi cap dims) ops) as [F _]. exact F.
+    + apply run_einv; [apply inv_init|reflexivity|apply einv_init; exact Hc|exact Hs].
+  - apply linv_empty_ok.
+    + destruct (run_state_frame (init false multi cap dims) ops) as [F _]. exact F.
+    + apply run_linv; [reflexivity|apply linv_init].
+Qed.
+
+Lemma select_exact_actual d multi cap dims ops conds exts masks oe m :
+  (d = true -> 0 <= cap /\ clean ops = true) ->
+  let st := run_state (init d multi cap dims) ops in
+  select_mask st conds exts masks oe = inl m ->
+  forall c, In c (mask_list m) <->
+            (In c (all_coords dims) /\ passes_exts st (passes_actual st masks oe conds) exts c).
+Proof.
+  intros H st Hs c.
+  assert (s_dims st = dims) as Hd by (destruct (run_state_frame (init d multi cap dims) ops) as [_ [F _]]; destruct d; exact F).
+  rewrite <- Hd. apply select_exact_actual_st; [apply reachable_empty_ok; exact H|exact Hs].
+Qed.
+
+(* ---------- "Cell is full": the statement executed before the raise changes nothing ---------- *)
+Lemma nodup_app {A} (a b : list A) :
+  NoDup a -> NoDup b -> (forall x, In x a -> ~ In x b) -> NoDup (a ++ b).
+Proof.
+  induction a as [|x a IH]; simpl; intros Ha Hb Hd.
+  { exact Hb. }
+  inversion Ha as [|x' a' Hnin Hnd]; subst. apply NoDup_cons.
+  { intros H. apply in_app_or in H. destruct H as [H|H].
+    { exact (Hnin H). }
+    { exact (Hd x (or_introl eq_refl) H). } }
+  { apply IH; auto. }
+Qed.
+Lemma nodup_zrange lo hi : NoDup (zrange lo hi).
+Proof.
+  unfold zrange. apply Injective_map_NoDup; [|apply seq_NoDup]. intros i j H. lia.
+Qed.
+Lemma nodup_all_coords dims : NoDup (all_coords dims).
+Proof.
+  induction dims as [|d t IH]; simpl; [constructor; [intros []|constructor]|].
+  generalize (nodup_zrange 0 (d - 1)). generalize (zrange 0 (d - 1)) as xs.
+  induction xs as [|x xs IHx]; intros Hx; simpl; [constructor|]. inversion Hx; subst.
+  apply nodup_app.
+  - apply Injective_map_NoDup; [|exact IH]. intros a b H. inversion H. reflexivity.
+  - apply IHx. assumption.
+  - intros c Hc Hc'. apply in_map_iff in Hc. destruct Hc as [c0 [<- _]].
+    apply in_flat_map in Hc'. destruct Hc' as [x' [Hx' Hin]]. apply in_map_iff in Hin.
+    destruct Hin as [c1 [E _]]. inversion E; subst. contradiction.
+Qed.
+
+Lemma aset_absent a c v : ~ In c (akeys a) -> aset a c v = a.
+Proof.
+  unfold aset, akeys. induction a as [|[k x] a IH]; simpl; intros H; [reflexivity|].
+  destruct (coord_eqb k c) eqn:E.
+  - apply coord_eqb_eq in E. exfalso. apply H. left. exact E.
+  - simpl. f_equal. apply IH. intros Hin. apply H. right. exact Hin.
+Qed.
+Lemma aset_same a c v : NoDup (akeys a) -> aget a c = Some v -> aset a c v = a.
+Proof.
+  induction a as [|[k x] a IH]; simpl; intros Hn Hg; [discriminate|]. inversion Hn; subst.
+  unfold aset in *. simpl. destruct (coord_eqb k c) eqn:E.
+  - inversion Hg; subst. apply coord_eqb_eq in E. subst k. f_equal. apply (aset_absent a c v). assumption.
+  - f_equal. apply IH; assumption.
+Qed.
+Lemma upd_nth_same {A} (l : list A) n x : nth_error l n = Some x -> upd_nth l n x = l.
+Proof.
+  revert n. induction l as [|y l IH]; intros [|n]; simpl; try discriminate.
+  - intros [= ->]. reflexivity.
+  - intros H. f_equal. apply IH. exact H.
+Qed.
+Lemma set_data_same st id L : get_obj st id = Some L -> set_data st id L (l_data L) = st.
+Proof.
+  intros H. unfold set_data, set_objs. unfold get_obj in H. destruct (id <? 0); [discriminate|].
+  replace {| l_name := l_name L; l_dt := l_dt L; l_dims := l_dims L; l_data := l_data L |} with L by (destruct L; reflexivity).
+  rewrite (upd_nth_same _ _ _ H). destruct st; reflexivity.
+Qed.
+
+(* in a state whose emptiness layer is right, `self.empty = False` on a full cell is a no-op *)
+Lemma setattr_full_noop st c :
+  inv st -> s_discrete st = true -> einv st -> valid_coord (s_dims st) c = true ->
+  cell_full st c = true -> cell_setattr st c EMPTY 0 = st.
+Proof.
+  intros I Hd E Hc Hf. pose proof (cell_full_occupied st c (e_cap _ E) Hf) as Ho.
+  destruct E as [E0 E2 E3 E4 [L [HL [Hn [Hdims Hv]]]]].
+  rewrite (setattr_empty st c 0 L I Hd E3 HL Hdims Hc).
+  rewrite aset_same; [apply set_data_same; exact HL| |].
+  - rewrite (inv_keys _ I _ _ HL). apply nodup_all_coords.
+  - rewrite (Hv c Hc), Ho. reflexivity.
+Qed.
+
+(* every rejection - "Cell is full" included - leaves a clean-reachable state exactly as it was *)
+Lemma atomic_clean d multi cap dims ops o st' k :
+  (d = true -> 0 <= cap /\ clean ops = true) ->
+  let st := run_state (init d multi cap dims) ops in
+  step st o = (st', RErr k) -> st' = st.
+Proof.
+  intros H st. assert (inv st) as I by (apply run_state_inv; apply inv_init).
+  apply step_err_unchanged; [exact I|]. intros Hd c Hc Hf.
+  destruct d.
+  - destruct (H eq_refl) as [H0 Hs]. apply setattr_full_noop; auto.
+    apply run_einv; [apply inv_init|reflexivity|apply einv_init; exact H0|exact Hs].
+  - destruct (run_state_frame (init false multi cap dims) ops) as [F _]. fold st in F. simpl in F. congruence.
 Qed.
